@@ -201,9 +201,9 @@ def untracked(iters, mode):
         elif mode == "concat_param":
             with sg.no_grad():
                 q = TF.concat([p, param], 0)[-2:]
-        elif mode == "concat_growing":
+        elif mode == "concat_traj":
             with sg.no_grad():
-                q = TF.concat([p, param], 0) if i < 40 else TF.concat([p[:2], param], 0)
+                q = TF.concat([p, param], 0)          # traj = concat([traj, param]): the trajectory grows, earlier ones must die
         elif mode == "stack_param":
             with sg.no_grad():
                 q = TF.stack([p, param], 0)[1] + 0.0
